@@ -1,5 +1,5 @@
 """C04 — no lost wake-up; queued requests are served in order."""
-from props import engine_common
+from props import engine_common, engine2_common
 from props.c01 import FINISH
 
 THEOREMS = ["Slock.C04.C04_order_never_overtakes", "Slock.C04.C04_order_sorted", "Slock.C04.C04_grant_is_head", "Slock.C04.C04_wake_pass_settles",
@@ -18,6 +18,8 @@ def run(ctx):
     # the quiescent claim carried down to the record-level model (stage 2) through the simulation
     if ctx.lake_build(["Slock.Properties.EngineSimTransfer"]):
         ctx.audit("Slock.Properties.EngineSimTransfer", ["Slock.SimP.key_view", "Slock.SimP.transfer_key", "Slock.SimP.C04_quiescent_transfers", "Slock.SimP.sim_run"])
+    # the corollaries (no lost wake-up, headAdmissible) likewise
+    engine2_common.audit_transfer2(ctx, engine2_common.THEOREMS_SIMT2_C04)
     engine_common.run_engine(ctx, ["C04:"], n_quick=3000, n_thorough=60000)
     ctx.cov["rule"] = ("seeded sequences with queue-heavy profile (exclusive locks, long waits, mixed priorities); monitor: at every quiescent moment the head live waiter "
                        "of every key is not admissible, classified by what made it admissible; distinct_nontrivial = distinct sequences containing at least one grant")
